@@ -196,6 +196,30 @@ LIB = {
         ("generator-throw", "(() => { function* g() { try { yield 1; } catch (e) { yield 'c' + e; } } const it = g(); it.next(); return it.throw('x').value; })()"), ("generator-delegate", "(() => { function* a() { yield 1; return 'r'; } function* b() { const r = yield* a(); yield r; } return [...b()]; })()"),
         ("spread-generator", "(() => { function* g() { yield* [1, 2]; } return [...g(), ...g()]; })()"), ("async-returns-promise", "(async () => 1)() instanceof Promise"), ("label-block", "(() => { a: { break a; } return 1; })()"),
     ],
+    "Scopes": [
+        ("scope-a", "(() => { let x='o'; let r=''; for (let i=0;i<3;i++){ let x='i'+i; try { if (i==1) break; r+=x; } finally { r+='f'+x; } } return r+x; })()"),
+        ("scope-b", "(() => { let x='o'; let r=''; for (let i=0;i<3;i++){ let x='i'+i; try { if (i==1) continue; r+=x; } finally { r+='f'+x; } } return r+x; })()"),
+        ("scope-c", "(() => { let r=''; const fs=[]; for (let i=0;i<3;i++){ fs.push(()=>i); if (i==1) continue; { let q=i; if (q==2) break; } } return r+fs.map(f=>f()).join(); })()"),
+        ("scope-d", "(() => { let r=''; o: for (let i=0;i<3;i++){ for (const j of [1,2,3]) { let t=i*10+j; if (j==2) continue o; if (i==2) break o; r+=t+','; } } return r; })()"),
+        ("scope-e", "(() => { function f(){ let x='o'; for (const k of [1,2]) { let x='i'; { let y=1; return x+y; } } return x; } return f()+f(); })()"),
+        ("scope-f", "(() => { function* g(){ for (let i=0;i<5;i++){ let v=i*2; if (i==3) break; yield v; } yield 'end'; } return [...g()].join(); })()"),
+        ("scope-g", "(() => { let x='o'; let r=''; a: { let x='a'; b: { let x='b'; try { break a; } finally { r+=x; } } r+='no'; } return r+x; })()"),
+        ("scope-h", "(() => { let r=''; for (let i=0;i<2;i++){ switch(i){ case 0: { let z='z0'; r+=z; break; } case 1: { let z='z1'; r+=z; continue; } } r+='|'; } return r; })()"),
+        ("scope-i", "(() => { let x='o'; let r=''; let n=0; while (true) { let x='w'; n++; try { try { if (n>1) break; } finally { r+='a'+x; } } finally { r+='b'+x; } } return r+x+n; })()"),
+        ("scope-j", "(() => { let x='o'; do { let x='d'; if (x) continue; } while (false); return x; })()"),
+        ("scope-k", "(() => { let r=''; for (const a of [1,2]) { for (let i=0;i<2;i++) { let x=a*10+i; if (i==0) continue; r+=x+','; } } return r; })()"),
+        ("scope-l", "(() => { function f(n){ let acc=''; for (let i=0;i<n;i++){ let c='c'+i; try { if (i==1) return acc+'R'; acc+=c; } finally { acc+='F'; } } return acc; } return f(3); })()"),
+        ("scope-m", "(() => { let x='o'; let r=''; try { for (const v of [1,2]) { let x='in'; throw new Error('e'); } } catch (e) { r+=x; } return r; })()"),
+        ("scope-n", "(() => { let s=0; outer: for (let i=0;i<3;i++){ let a=i; inner: for (let j=0;j<3;j++){ let b=j; if (b==1) continue inner; if (a==1) continue outer; if (a==2 && b==2) break outer; s+=a*10+b; } } return s; })()"),
+        ("scope-o", "(() => { let r=''; for (let i=0;i<3;i++){ a: { if (i==1) break; r+=i; } r+='|'; } return r; })()"),
+        ("scope-p", "(() => { let r=''; for (let i=0;i<3;i++){ a: { if (i==1) continue; r+=i; } r+='|'; } return r; })()"),
+        ("scope-q", "(() => { let r=''; for (const i of [0,1,2]){ switch (i) { case 1: continue; default: r+=i; } r+='|'; } return r; })()"),
+        ("scope-r", "(() => { let r=''; l: for (const i of [0,1,2]){ switch (i) { case 1: continue l; case 2: break l; default: r+=i; } r+='|'; } return r; })()"),
+        ("scope-s", "(() => { let r=''; for (let k=0;k<2;k++){ try { try { try { if (k==1) continue; r+='x'; } finally { r+='1'; } } finally { r+='2'; } } finally { r+='3'; } } return r; })()"),
+        ("scope-t", "(() => { let r=''; function f(){ for (;;) { try { try { return 'R'; } finally { r+='1'; } } finally { r+='2'; } } } return f()+r; })()"),
+        ("scope-u", "(() => { let x = 'outer'; while (true) { let x = 'inner'; break; } return x; })()"),
+        ("scope-v", "(() => { let x = 'outer'; switch (1) { case 1: { let x = 'inner'; break; } } return x; })()"),
+    ],
     "Control": [
         ("finally-return-override", "(() => { try { return 1; } finally { return 2; } })()"), ("finally-after-catch-return", "(() => { let log = ''; function f() { try { throw 1; } catch (e) { log += 'c'; } finally { log += 'f'; } return 'r'; } f(); return log; })()"),
         ("finally-break", "(() => { let n = 0; for (;;) { try { break; } finally { n++; } } return n; })()"), ("finally-continue", "(() => { let n = 0; for (let i = 0; i < 2; i++) { try { continue; } finally { n++; } } return n; })()"),
